@@ -3,6 +3,7 @@ package multiplexing
 import (
 	"errors"
 	"io"
+	"time"
 
 	"github.com/mutagen-io/mutagen/pkg/multiplexing/ring"
 )
@@ -23,6 +24,16 @@ var (
 )
 
 const verifQueue = 4
+
+// Deadline timers are runtime objects the executor cannot run.  Model: a timer
+// is an object whose channel C (capacity 1) never receives a value -- no
+// deadline expires during a check -- and Stop/Reset report "the timer was
+// active", which is what the runtime reports for a timer that has not fired.
+var verifStubs = map[string]any{
+	"time.NewTimer":       func(d time.Duration) *time.Timer { return &time.Timer{C: make(chan time.Time, 1)} },
+	"(*time.Timer).Stop":  func(t *time.Timer) bool { return true },
+	"(*time.Timer).Reset": func(t *time.Timer, d time.Duration) bool { return true },
+}
 
 // verifWire is a harness Carrier: a byte queue.  Bytes written are appended;
 // reads consume from the front.  onEmpty (if set) is consulted when ReadByte
